@@ -10,25 +10,25 @@ OUTSIDE = ["polygon vertices for a non-zero angle (sin/cos have no bit-precise s
 KANI_MODULES = ["c19_bbox"]
 F = "similari::utils::bbox::"
 KANI = [
-    KH("c19_bbox::c19_bbox_eq_tolerance", "quick", 120,
+    KH("c19_bbox::c19_bbox_eq_tolerance", "quick", 900,
        "BoundingBox == is exactly 'all 5 fields differ by < EPS': reflexive, symmetric",
        "all non-NaN f32 in [-1e4,1e4], confidence in [0,1]", [F + "BoundingBox::eq"]),
-    KH("c19_bbox::c19_ubox_eq_tolerance", "quick", 120,
+    KH("c19_bbox::c19_ubox_eq_tolerance", "quick", 900,
        "Universal2DBox == is exactly 'xc,yc,angle(None=0),aspect,height differ by < EPS': reflexive, symmetric",
        "all non-NaN f32 in [-1e4,1e4], angle Some/None", [F + "Universal2DBox::eq"]),
-    KH("c19_bbox::c19_roundtrip_grid", "quick", 300,
+    KH("c19_bbox::c19_roundtrip_grid", "quick", 900,
        "ltwh -> xyaah -> ltwh returns the box (height/top/confidence exact, width within 2^-22 rel, left within (|l|+w+1)2^-21)",
        "left/top k/4 in [-64,64], width/height k/4 in (0,16]", [F + "Universal2DBox::from(&BoundingBox)", F + "BoundingBox::try_from(&Universal2DBox)"]),
-    KH("c19_bbox::c19_area_grid", "quick", 300, "area = aspect*height^2 exactly",
+    KH("c19_bbox::c19_area_grid", "quick", 900, "area = aspect*height^2 exactly",
        "height k/4 in (0,16], aspect k/4 in (0,8]", [F + "Universal2DBox::area"]),
     KH("c19_bbox::c19_radius_grid", "thorough", 1500, "radius^2 = (w/2)^2+(h/2)^2 within 2^-21 relative",
        "height k/4 in (0,16], aspect k/4 in (0,8]", [F + "Universal2DBox::get_radius"]),
-    KH("c19_bbox::c19_radius_small", "quick", 400, "radius^2 = (w/2)^2+(h/2)^2 within 2^-21 relative",
+    KH("c19_bbox::c19_radius_small", "quick", 900, "radius^2 = (w/2)^2+(h/2)^2 within 2^-21 relative",
        "height k/2 in (0,4], aspect k/2 in (0,4]", [F + "Universal2DBox::get_radius"]),
-    KH("c19_bbox::c19_vertices_axis_aligned", "quick", 600,
+    KH("c19_bbox::c19_vertices_axis_aligned", "quick", 900,
        "polygon of an unrotated box = axis-aligned rectangle (x-+w/2, y+-h/2), clockwise from top-left, closed",
        "xc,yc k/4 in [-64,64], height k/4 in (0,16], aspect k/4 in (0,8]", [F + "Polygon::from(&Universal2DBox)"]),
-    KH("c19_bbox::c19_normalize_angle", "quick", 400,
+    KH("c19_bbox::c19_normalize_angle", "quick", 900,
        "normalize_angle(a) in [0,2pi] and congruent to a modulo 2pi within 1e-4 turns",
        "all f32 |a| <= 1000", [F + "normalize_angle"]),
 ]
@@ -44,3 +44,86 @@ EXPLANATION += (" Engine M: Polygon::from(&Universal2DBox) yields the four verti
                 "precision changes are caught without reasoning about sin and cos - from the CURRENT fields, never from a cached polygon; "
                 "gen_vertices replaces a stale cache.")
 ASSUMPTIONS += ["M: free centre, angle None or from {0,.5,1,2.5,-.75,7}, sizes from exact grids; sin / cos uninterpreted"]
+
+
+# ---- equality as a tolerance relation, also decided by engine M (z3 floats): cheap on the real code (comparisons only) and, unlike
+# the Kani harness, it still yields a candidate counterexample on implementations that introduce divisions (relaxed path condition)
+import z3
+from mir_engine import MQ
+from mirlib import *
+
+
+def _mk_eq(kind):
+    def q(vm, P):
+        ty = 'BoundingBox' if kind == 'bbox' else 'Universal2DBox'
+        fn = P.impl_methods[(ty, 'PartialEq', 'eq')][0][0]
+        eps = vm.const_value('EPS', {})
+
+        def fl(n, lo=-1.0e4, hi=1.0e4):
+            x = vm.fresh('f32', n)
+            vm.assume(fp_in(x, lo, hi))
+            return x
+        if kind == 'bbox':
+            a = [fl('a_left'), fl('a_top'), fl('a_width', 0.01, 1.0e4), fl('a_height', 0.01, 1.0e4), fl('a_conf', 0.0, 1.0)]
+            b = [fl('b_left'), fl('b_top'), fl('b_width', 0.01, 1.0e4), fl('b_height', 0.01, 1.0e4), fl('b_conf', 0.0, 1.0)]
+            va, vb = Adt('BoundingBox', 0, tuple(a)), Adt('BoundingBox', 0, tuple(b))
+            pairs = list(zip(a, b))
+        else:
+            ha, hb = vm.choose_n(2, "a angle given") == 0, vm.choose_n(2, "b angle given") == 0
+            a = [fl('a_xc'), fl('a_yc'), fl('a_angle', -10.0, 10.0), fl('a_aspect', 0.01, 100.0), fl('a_height', 0.01, 1.0e4)]
+            b = [fl('b_xc'), fl('b_yc'), fl('b_angle', -10.0, 10.0), fl('b_aspect', 0.01, 100.0), fl('b_height', 0.01, 1.0e4)]
+            va = Adt('Universal2DBox', 0, (a[0], a[1], SOME(a[2]) if ha else NONE, a[3], a[4], f32(1.0), NONE))
+            vb = Adt('Universal2DBox', 0, (b[0], b[1], SOME(b[2]) if hb else NONE, b[3], b[4], f32(1.0), NONE))
+            aa = [a[0], a[1], a[2] if ha else f32(0.0), a[3], a[4]]
+            bb = [b[0], b[1], b[2] if hb else f32(0.0), b[3], b[4]]
+            pairs = list(zip(aa, bb))
+        r = vm.exec_fn(fn, [Ref(Cell(va, 'a')), Ref(Cell(vb, 'b'))], {})
+        want = z3.And([z3.fpLT(z3.fpAbs(z3.fpSub(RNE, x, y)), eps) for x, y in pairs])
+        vm.check(r == want, "== is exactly 'every coordinate differs by less than EPS' (hence reflexive and symmetric)")
+    return q
+
+
+EQ_REPLAY = r'''
+use similari::utils::bbox::{BoundingBox, Universal2DBox};
+use similari::EPS;
+#[test]
+fn replay() {
+    // pairs differing in exactly one coordinate by +-delta for deltas across the epsilon boundary, both argument orders,
+    // over magnitudes 1e-2 .. 1e3 (the property's own quantifier)
+    let deltas = [0.0f32, EPS * 0.25, EPS * 0.5, EPS * 0.75, EPS * 1.5, EPS * 1.9, EPS * 3.0, 1e-3];
+    for base in [[0.0f32, 0.0, 1.0, 2.0], [0.0, 0.0, 1000.0, 0.01], [5.0, -3.0, 0.01, 1000.0], [100.0, 50.0, 10.0, 10.0], [0.5, 0.25, 2.0, 0.5]] {
+        for field in 0..5usize { for d in deltas { for sign in [1.0f32, -1.0] {
+            let a = BoundingBox::new_with_confidence(base[0], base[1], base[2], base[3], 0.5);
+            let mut v = [base[0], base[1], base[2], base[3], 0.5];
+            v[field] += sign * d;
+            let b = BoundingBox::new_with_confidence(v[0], v[1], v[2], v[3], v[4]);
+            let diff = [(a.left - b.left).abs(), (a.top - b.top).abs(), (a.width - b.width).abs(), (a.height - b.height).abs(), (a.confidence - b.confidence).abs()];
+            let want = diff.iter().all(|x| *x < EPS);
+            assert_eq!(a == b, want, "BoundingBox {:?} == {:?}", a, b);
+            assert_eq!(b == a, want, "BoundingBox == symmetric {:?} {:?}", a, b);
+        } } }
+        for field in 0..5usize { for d in deltas { for sign in [1.0f32, -1.0] { for ang in [None, Some(0.3f32)] {
+            let a = Universal2DBox::new(base[0], base[1], ang, base[2], base[3]);
+            let mut v = [base[0], base[1], ang.unwrap_or(0.0), base[2], base[3]];
+            v[field] += sign * d;
+            let b = Universal2DBox::new(v[0], v[1], if ang.is_none() && field != 2 { None } else { Some(v[2]) }, v[3], v[4]);
+            let diff = [(a.xc - b.xc).abs(), (a.yc - b.yc).abs(), (a.angle.unwrap_or(0.0) - b.angle.unwrap_or(0.0)).abs(), (a.aspect - b.aspect).abs(), (a.height - b.height).abs()];
+            let want = diff.iter().all(|x| *x < EPS);
+            assert_eq!(a == b, want, "Universal2DBox {:?} == {:?}", a, b);
+            assert_eq!(b == a, want, "Universal2DBox == symmetric");
+        } } } }
+    }
+}
+'''
+
+
+def _replay_eq(cex, v, vm):
+    return EQ_REPLAY
+
+
+MIR += [
+    MQ("c19_bbox_eq_m", "quick", _mk_eq('bbox'), "BoundingBox == is exactly the EPS-tolerance relation on left / top / width / height / confidence", "free f32 in [-1e4,1e4], sizes in [0.01,1e4]",
+       ["similari::utils::bbox::BoundingBox::eq"], replay=_replay_eq),
+    MQ("c19_ubox_eq_m", "quick", _mk_eq('ubox'), "Universal2DBox == is exactly the EPS-tolerance relation on xc / yc / angle (None = 0) / aspect / height", "free f32, angle given or not",
+       ["similari::utils::bbox::Universal2DBox::eq"], replay=_replay_eq),
+]
